@@ -747,6 +747,21 @@ let make_m1 (params : string list) : machine =
             let s', x = m_step !st OSave in
             st := s';
             "(ws[" ^ String.concat "," nodes ^ "]," ^ show_out x ^ ")"
+        | [ "r"; t; "istop"; api; s0; e0; asc; n ] ->
+            (* a stop request at the n-th element delivers exactly the first n elements of the
+               specified iteration and the call reports that it was stopped; when fewer exist, all of
+               them and "not stopped" (IterFacts: stop callbacks deliver a prefix) *)
+            let tg = parse_target t in
+            let rd = (match api with
+                | "it" -> RIter (None, None, false, true)
+                | "ir" -> RIter (obytes_of_tok s0, obytes_of_tok e0, false, bool_of_tok asc)
+                | _ -> RIter (obytes_of_tok s0, obytes_of_tok e0, true, bool_of_tok asc)) in
+            (match snd (m_step !st (ORead (tg, rd))) with
+             | XKvs l ->
+                 let n = int_of_string n in
+                 let rec take k = function [] -> [] | x :: r -> if k <= 0 then [] else x :: take (k - 1) r in
+                 Printf.sprintf "st(%b;%s)" (List.length l >= n) (show_out (XKvs (take n l)))
+             | _ -> "err")
         | [ "r"; t; "gproof"; k ] ->
             let tg = parse_target t in
             let q r = snd (m_step !st (ORead (tg, r))) in
